@@ -140,9 +140,13 @@ func runC16(res *result) {
 		}
 		return out
 	}
+	twin := false
 	add := func(point string, l []mwSpec, method, wire string, fails bool, svc string) {
 		cs := &callSpec{Kind: "rpc", Service: svc, Method: method, WireMethod: wire, Args: []*idl.V{iv(5)}, ArgTypes: []*idl.RT{i32}, RetType: i32,
 			Transport: "direct", Proto: "binary", Cid: "c", TimeoutMs: 1000, Outcome: &outcomeSpec{Kind: "return", Value: iv(50)}}
+		if twin {
+			cs.Twin = map[string]string{"provider": "client", "client": "client", "processor": "processor"}[point]
+		}
 		if fails {
 			cs.Outcome = &outcomeSpec{Kind: "error"}
 		}
@@ -166,6 +170,9 @@ func runC16(res *result) {
 			e.serverChain = append(append([]mwSpec{}, cs.ProcessorMW...), cs.AddedMW...)
 		}
 		e.desc = fmt.Sprintf("%s.%s middleware at %s: %s (handler fails: %v)", svc, wire, point, describeList(l), fails)
+		if twin {
+			e.desc = fmt.Sprintf("%s.%s middleware at %s+twin: %s (the same middleware slice, with spare capacity, is used to build a second object with another provider before the first call)", svc, wire, point, describeList(l))
+		}
 		plan.Ops = append(plan.Ops, drvOp{Op: "call", Call: cs})
 		exps = append(exps, e)
 	}
@@ -183,6 +190,15 @@ func runC16(res *result) {
 			}
 		}
 	}
+	// the caller's middleware slice has spare capacity and is used for a second object with another
+	// provider before the first call: the second object's provider middleware must not show
+	twin = true
+	for _, l := range mwLists(2, []string{"observe", "rewrite-arg"}) {
+		for _, point := range []string{"provider", "client", "processor"} {
+			add(point, l, "Echo", "echo", false, "Svc")
+		}
+	}
+	twin = false
 	// inherited and own method of a child service, every attachment point, short lists
 	for _, l := range mwLists(1, mwBehaviours) {
 		for _, point := range []string{"provider", "client", "processor", "added"} {
@@ -245,6 +261,23 @@ func runC16(res *result) {
 				plan.Ops = append(plan.Ops, drvOp{Op: "call", Call: cs})
 				pexps = append(pexps, e)
 			}
+		}
+	}
+	for _, l := range mwLists(2, []string{"observe"}) {
+		for _, point := range []string{"publisher", "subscriber"} {
+			cs := &callSpec{Kind: "pubsub", Scope: "Plain", Op: "Noted", PayloadRT: pointRT, Payload: pointV(9, "p"), Proto: "binary", Cid: "c", Twin: point,
+				ProviderMW: []mwSpec{{ID: "pv-obs", Behave: "observe"}}}
+			e := pexp{cs: cs}
+			if point == "publisher" {
+				cs.PubMW = prefix(l, "pb-")
+			} else {
+				cs.SubMW = prefix(l, "sb-")
+			}
+			e.pub = append(append([]mwSpec{}, cs.PubMW...), cs.ProviderMW...)
+			e.sub = append(append([]mwSpec{}, cs.SubMW...), cs.ProviderMW...)
+			e.desc = fmt.Sprintf("Plain.Noted middleware at %s+twin: %s (the same middleware slice, with spare capacity, is used to build a second object with another provider before the first publish)", point, describeList(l))
+			plan.Ops = append(plan.Ops, drvOp{Op: "call", Call: cs})
+			pexps = append(pexps, e)
 		}
 	}
 	res.Nontrivial = int64(len(plan.Ops))
